@@ -407,6 +407,7 @@ func H_C01_in_subquery() {
 	n := verif.Choose("rows", maxRows(2, 3)+1)
 	m := verif.Choose("list", 3)
 	neg := verif.Choose("not", 2)
+	computed := verif.Choose("computed", 2) // the subquery column is c, or the expression c + 1
 	doc, rows := numTable(n, "a")
 	u := make([]any, m)
 	cs := make([]float64, m)
@@ -420,7 +421,14 @@ func H_C01_in_subquery() {
 	if neg == 1 {
 		kw = " NOT IN "
 	}
-	got, ok := runQuery(doc, "SELECT * FROM t WHERE a"+kw+"(SELECT c FROM `<-u`)")
+	col := "c"
+	if computed == 1 {
+		col = "c + 1 AS d"
+		for i := range cs {
+			cs[i] = cs[i] + 1
+		}
+	}
+	got, ok := runQuery(doc, "SELECT * FROM t WHERE a"+kw+"(SELECT "+col+" FROM `<-u`)")
 	if !ok {
 		return
 	}
